@@ -40,7 +40,7 @@ def run(ctx):
     ctx.tlc_gen("MC_GraphStore", GEN.format(maxn=2, maxe=2, labels=L1, types=T1, vals='{"v1"}', maxh=5, full="FALSE", kf="TRUE",
                                             view="VIEW View", emit="", inv=IDEAL_INV), "kf-witness", expect_violation=True, workers=4)
     # transition cover, small alphabet
-    scripts = ctx.tlc_gen("MC_GraphStore", GEN.format(maxn=2, maxe=2, labels=L1, types=T2, vals='{"v1"}', maxh=4 if q else 6, full="FALSE", kf="FALSE",
+    scripts = ctx.tlc_gen("MC_GraphStore", GEN.format(maxn=2, maxe=2, labels=L1, types=T2, vals='{"v1"}', maxh=4 if q else 5, full="FALSE", kf="FALSE",
                                                       view="VIEW View", emit="ACTION_CONSTRAINT Emit", inv=IDEAL_INV), "cover", timeout=3000,
                           workers=1 if q else 8, coverage=True)
     walks = ctx.tlc_gen("MC_GraphStore", GEN.format(maxn=3, maxe=3, labels=L2, types=T2, vals='{"v1", "v2"}', maxh=30, full="TRUE", kf="FALSE",
